@@ -8,6 +8,9 @@ CHECKS = {
  "C16": ("translation_validation", "property-based testing of flatten(): generated hierarchies validated against the reference interpreter's flat circuit (isomorphism), plus adversarial ':' names",
          "For generated hierarchies (leaves at every level, shared sub-modules, buses, pass-through ports, port-less sub-modules) flatten(m) must return only primitive / external instances, one per leaf device, with m's ports unchanged, and its package must be isomorphic to the reference interpreter's circuit of m; designs flatten may refuse (slices, concats, ':' in names) must raise or be right.",
          "Trusts the reference interpreter and package reader; sampled; the flatten-must-succeed class is decided from the elaborated hierarchy (all connections whole signals, no ':' in names)."),
+ "C17": ("exploration", "property-based testing of Sim export against a reference encoder, over generated Sim descriptions built three ways and exported alone or in lists",
+         "Generated Sims (every analysis, control and option type, nesting to depth 3, every Scalar and SaveTarget form, valid and invalid testbenches) are built by constructor list, @sim class body and add-methods and exported alone or in lists sharing testbenches; top / package / per-attribute entries (order, kinds, names, expressions, paths, sweeps, nearest-double values, inner analyses, distinct generated names) are compared with a reference encoder, construction styles must agree, invalid testbenches must raise.",
+         "List-valued save targets are read as comma-joined names; Literal-valued numeric fields, SaveMode.SELECTED and external-module testbenches are recorded only; sampled."),
  "C18": ("exploration", "model-based (stateful) property testing: generated operation sequences on a Module / Bundle executed in lock step with a model dict; invariant checked after every step",
          "Sequences of setattr / add / add(name=) / re-add / get and negative operations over a five-name alphabet with values of every attribute kind are applied to a Module or Bundle and to a model dict; after every step the namespace, every per-kind view, get(), attribute access, port listing and parent links must agree with the model, negative operations must raise without effect, the final module must export exactly the model's content, refuse additions after elaboration, and equal the class-style definition of the same content.",
          "Fresh object per operation (no aliasing); reserved names through add() and post-'elaboration' additions to Bundles are recorded only; sampled histories of up to 30 steps."),
